@@ -19,7 +19,7 @@ from vlib.runner import CaseResult, Check, Part, exc_bucket, main
 def cases(draw, tier):
     return dict(prog=draw(dsl.track_programs()), seed=draw(st.integers(0, 10**6)), backward=draw(st.sampled_from([True, True, True, False])),
                 warmup=draw(st.sampled_from([None, None, "backward", "forward-only"])), nnroot=draw(st.integers(0, 5)) == 0, dtype=draw(st.sampled_from(["float32", "float32", "float32", "float64"])),
-                upstream=draw(st.sampled_from([False, False, False, True])))
+                upstream=draw(st.sampled_from([False, False, False, True])), double=draw(st.sampled_from([False, False, True])))
 
 
 def bitequal(a, b):
@@ -136,6 +136,46 @@ def run(c) -> CaseResult:
         for k in ig0:
             if grad_clause("input", k, ig0[k], ig1.get(k)):
                 break
+    # ---- (a') second-order use (gradient penalty / Hessian-vector product): differentiating THROUGH the backward pass of the tracked
+    # module gives the untracked module's parameter gradients (float32-level agreement: the double-backward graphs differ in order)
+    # (programs that call the library's own scale_fwd / scale_bwd are left out: TorchDynamo turns an autograd.Function it traces into
+    # a higher-order op whose backward is not differentiable again, so second-order gradients through them differ under ANY
+    # Dynamo-based transform - observed, 59-76% - which is outside the property's "forward-only and forward+backward runs")
+    uses_primitives = any(s_["op"] == "ew" and s_["fn"] in ("scale_fwd", "scale_bwd") for s_ in prog["stmts"])
+    if c.get("double") and c["backward"] and not c.get("nnroot") and not ups and not uses_primitives:
+        def second(mod):
+            ins = {k: (v.clone().requires_grad_() if v.is_floating_point() else v.clone()) for k, v in inputs.items()}
+            yy = mod(**ins)
+            oo = yy if isinstance(yy, tuple) else (yy,)
+            tot = sum(o.sum() for o in oo if o.is_floating_point() and o.requires_grad)
+            leaves = [v for v in ins.values() if v.is_floating_point()]
+            g1 = torch.autograd.grad(tot, leaves, create_graph=True, allow_unused=True)
+            pen = sum((gi ** 2).sum() for gi in g1 if gi is not None and gi.requires_grad)
+            if not isinstance(pen, torch.Tensor):
+                return None
+            ps = [p for p in mod.parameters() if p.requires_grad]
+            return torch.autograd.grad(pen, ps, allow_unused=True)
+        try:
+            ref2 = second(m)
+        except Exception:  # noqa: BLE001  (an op of this program has no double backward: nothing to compare)
+            ref2 = None
+        if ref2 is not None:
+            try:
+                got2 = second(track_scales(m))   # (a separate tracked instance: the metrics of `tm` are compared below)
+                for a2, b2 in zip(got2, ref2):
+                    if a2 is None or b2 is None:
+                        # (a gradient that does not exist and one that is identically zero are the same statement)
+                        other_ = b2 if a2 is None else a2
+                        if other_ is not None and bool((other_ != 0).any()):
+                            res.fail("C18.observational.second-order-grad", f"a second-order parameter gradient exists only with / only without tracking\n{src}")
+                            break
+                        continue
+                    if not torch.allclose(a2, b2, rtol=1e-4, atol=1e-6 * max(1.0, float(b2.abs().max()))):
+                        res.fail("C18.observational.second-order-grad", f"parameter gradients of a gradient penalty (double backward) differ with tracking on\n{src}")
+                        break
+                res.labels.append("double-backward")
+            except Exception as e:  # noqa: BLE001
+                res.fail(exc_bucket("C18.raises.double-backward", e).replace("outside-library", "via-dynamo")[:300], f"{type(e).__name__}: {str(e)[:300]}\n{src}")
     # ---- (b) metrics == statistics of independently captured tensors
     store, graphs, _, _ = tracking.capture(m, inputs, backward=c["backward"], call=call)
     names = [n.name for n in graph.nodes]
